@@ -24,7 +24,7 @@ type vxFaultClient struct {
 	dupWrites  int
 	listCalls  int
 	writeCalls int
-	breaks     int // downloads that failed mid-stream (at most one per scenario)
+	breaks     int  // downloads that failed mid-stream (at most one per scenario)
 	listBroke  bool // a listing broke off part-way (its consumer saw a prefix)
 }
 
